@@ -3,6 +3,8 @@
 A1  every operator whose exact result can leave the type raises Overflow (incl. unary minus and signed division)
 A2  casts are silent and width-driven; extension fills exactly the gap it opened and uses the source type's signedness
 A3  each operator is lowered by its own arithmetic circuit; rewrites into other operators only where listed / guarded
+A4  the constant-multiplication rewrite splits the literal into magnitude and sign: every rewritten result is returned on one
+    edge of a test of that sign (a fast path that looks at the magnitude only drops the sign)
 """
 from .. import mir
 from ..core import AnchorMissing, Finding, RuleResult
@@ -249,5 +251,50 @@ def rule_a3(ctx):
     return res
 
 
+def rule_a4(ctx):
+    """Multiplication by a literal: the literal's sign and magnitude are split; every rewritten result must look at the sign."""
+    res = RuleResult("A4", "every result of the constant-multiplication rewrite depends on the sign of the literal")
+    f, body = _body(ctx)
+    succ = body.pruned_succ({INNER: "Op", OP0: "Mul"})
+    region = body.reachable([0], succ=succ)
+    # the (magnitude, bits, is_negative) triples
+    triples = []
+    for b in sorted(region):
+        for i, st in enumerate(body.blocks[b]["stmts"]):
+            if st["k"] == "assign" and st["rv"]["k"] == "aggregate" and st["rv"].get("akind") == "tuple" and len(st["rv"]["ops"]) == 3 and st["place"]["ty"].endswith("bool)"):
+                triples.append((b, i, st))
+    if len(triples) < 2 and not res.findings:
+        raise AnchorMissing("A4: the constant-multiplication rewrite no longer splits the literal into (magnitude, bits, sign) (found %d triples)" % len(triples))
+    signed = [t for t in triples if t[2]["rv"]["ops"][2]["k"] != "const"]
+    if not signed:
+        res.bad(Finding("A4", f["id"], "sign of a signed literal factor is never computed", "no (magnitude, bits, sign) triple has a computed sign", triples[0][2]["sp"]))
+        return res
+    sign_switches = set()
+    sign_srcs = set()
+    for (b, i, st) in triples:
+        sign_srcs |= {(r, tuple(p)) for (r, p) in body.trace_operand(st["rv"]["ops"][2])}
+    for x in region:
+        tt = body.term(x)
+        if tt["k"] == "switch" and tt["discr"]["k"] in ("copy", "move"):
+            tr = {(r, tuple(p)) for (r, p) in body.trace_operand(tt["discr"])}
+            if any(r[0] == "agg" and (r[1], r[2]) in {(b, i) for (b, i, _) in triples} and p == ("2",) for (r, p) in tr):
+                sign_switches.add(x)
+            elif tr and tr <= sign_srcs and any(r[0] != "const" for (r, p) in tr):
+                sign_switches.add(x)
+    loops = [lp for lp in body.loops() if any(b in lp["body"] for (b, i, _) in triples)]
+    lp = min(loops, key=lambda l: len(l["body"])) if loops else None
+    deleg = [d for d in _delegations(ctx, body, region) if any(body.path(b, [d], succ=succ) for (b, i, _) in triples)]
+    if not deleg:
+        res.ok({"verdict": "the rewrite returns no lowering of a synthesised expression"})
+        return res
+    for d in deleg:
+        if any(body.dominates(x, d) and len({y for y in body.succs(x) if d == y or body.path(y, [d], blocked={x})}) < len(body.succs(x)) for x in sign_switches):
+            res.ok({"site": "line %d" % body.term(d)["sp"][1], "verdict": "returned on one edge of the test of the literal's sign"})
+        else:
+            res.bad(Finding("A4", f["id"], "rewritten product ignores the sign of the literal",
+                            "this result of the constant-multiplication rewrite is returned whether the literal factor is negative or not (only its magnitude was inspected)", body.term(d)["sp"]))
+    return res
+
+
 def run(ctx):
-    return ctx.run_rules([rule_a1, rule_a2, rule_a3])
+    return ctx.run_rules([rule_a1, rule_a2, rule_a3, rule_a4])
